@@ -142,7 +142,12 @@ def check(run):
     extra = [('free-param-array', 'int[0,3] fp', 'int ctx_a[fp + 1];', 'system T;', True), ('free-param-plain', 'int[0,3] fp', 'int ctx_v;', 'system T;', False),
              ('free-param-select', 'int[0,3] fp', '', 'system T;', 'select'), ('bound-param-array', 'const int fp', 'int ctx_a[fp + 1];', 'P = T(2); system P;', False),
              ('partial-inst-array', 'const int a, int[0,3] fp', 'int ctx_a[a + 1];', 'Q(const int[0,3] z) = T(z, z); system Q;', True),
-             ('partial-inst-plain', 'const int a, int[0,3] fp', 'int ctx_v;', 'Q(const int[0,3] z) = T(2, z); system Q;', False)]
+             ('partial-inst-plain', 'const int a, int[0,3] fp', 'int ctx_v;', 'Q(const int[0,3] z) = T(2, z); system Q;', False),
+             # every place of an array's index type: size expression, lower and upper bound of an index range, through a local constant, a typedef, a scalar set, a second dimension
+             ('free-param-index-upper', 'const int[0,3] fp', 'int ctx_a[int[0,fp]];', 'system T;', True), ('free-param-index-lower', 'const int[0,3] fp', 'int ctx_a[int[fp,5]];', 'system T;', True),
+             ('free-param-lower-via-const', 'const int[0,3] fp', 'const int lo = fp; int ctx_a[int[lo,5]];', 'system T;', True), ('free-param-upper-via-const', 'const int[0,3] fp', 'const int hi = fp; int ctx_a[int[0,hi]];', 'system T;', True),
+             ('free-param-second-dim', 'const int[0,3] fp', 'int ctx_a[2][fp + 1];', 'system T;', True), ('free-param-typedef-lower', 'const int[0,3] fp', 'typedef int[fp,5] R; int ctx_a[R];', 'system T;', True),
+             ('free-param-index-plain', 'const int[0,3] fp', 'int ctx_a[int[1,5]]; int ctx_v = fp;', 'system T;', False)]
     for name, params, tdecl, sysl, _ in extra:
         sel = 's : int[0, fp]' if name == 'free-param-select' else 's : int[0,1]'
         xml = '''<?xml version="1.0" encoding="utf-8"?>
